@@ -165,7 +165,8 @@ pub enum Step {
         #[serde(default)]
         clone_from: bool,
     },
-    /// how: 0 into_iter().collect(), 1 iter-cloned collect in permuted order, 2 into_children(zero), 3 into_keys+into_values zip
+    /// how: 0 into_iter().collect(), 1 iter-cloned collect in permuted order, 2 into_children(zero), 3 into_keys+into_values zip,
+    /// 4 collect() from the entries plus duplicates of some networks (other host bits / values)
     Rebuild { m: u8, how: u8, order: u64 },
     Serde { m: u8, k0: u64, k1: u64 },
     Swap { a: u8, b: u8 },
@@ -648,7 +649,7 @@ fn gen_step(g: &mut Gen, weights: &[u32; 27]) -> Step {
         8 => Step::IterMutWrite { m: g.m(), form: g.rng.below(3) as u8, k: g.q(), order: g.rng.next(), v0: g.vblock() },
         9 => Step::Entry { m: g.m(), k: g.k(), acts: g.entry_acts(), panic_at: g.panic_at(1) },
         10 => Step::CloneInto { m: g.m(), dst: g.m(), clone_from: g.rng.chance(1, 2) },
-        11 => Step::Rebuild { m: g.m(), how: g.rng.below(4) as u8, order: g.rng.next() },
+        11 => Step::Rebuild { m: g.m(), how: g.rng.below(5) as u8, order: g.rng.next() },
         12 => Step::Serde { m: g.m(), k0: g.rng.next(), k1: g.rng.next() },
         13 => Step::Swap { a: g.m(), b: g.m() },
         14 => {
